@@ -164,13 +164,45 @@ class Embed:
         raise ValueError(kind)
 
 
+_PUSHED = [0]
+EVENT_LOG_LIMIT = 400
+
+
+def bound_event_log() -> None:
+    """Harness-side cap on the simulator's EventStack (a log of "thrust on/off" records kept in a key-value actor).
+
+    Every thrust callback pushes a record; the stand-in's object store keeps a pickle of every transaction result, so
+    the memory grows quadratically with the number of records between two flushes.  A tree on which the restart loop
+    never leaves an event time (a hang, caught by the SIGALRM guard) would push millions of records and get the check
+    OOM-killed instead of reported.  Only the LOG is capped (records beyond the limit are dropped until the next flush);
+    what is integrated is untouched."""
+    from resonaate.dynamics.integration_events.event_stack import EventStack
+    if getattr(EventStack, "_verif_bounded", False):
+        return
+    push, flush = EventStack.pushEvent.__func__, EventStack.logAndFlushEvents.__func__
+
+    def push_bounded(cls, event_record):
+        _PUSHED[0] += 1
+        if _PUSHED[0] <= EVENT_LOG_LIMIT:
+            push(cls, event_record)
+
+    def flush_reset(cls):
+        _PUSHED[0] = 0
+        return flush(cls)
+
+    EventStack.pushEvent = classmethod(push_bounded)
+    EventStack.logAndFlushEvents = classmethod(flush_reset)
+    EventStack._verif_bounded = True
+
+
 def flush_events() -> None:
-    """Every thrust callback pushes a record on the simulator's EventStack (a key-value actor); the Scenario flushes it at
-    every step.  Replays that call the dynamics directly must do the same, otherwise the stack - and the stand-in's
-    object store, which keeps a pickle of every transaction result - grows quadratically."""
+    """The Scenario flushes the EventStack at every step; replays that call the dynamics directly must do the same."""
     from resonaate.dynamics.integration_events.event_stack import EventStack
     EventStack.logAndFlushEvents()
     sched._OBJECTS.clear()
+
+
+bound_event_log()
 
 
 def close(got: float, want: float, tol: float = 1e-9) -> bool:
